@@ -260,8 +260,11 @@ func definitelyNonNil(o ssa.Value, eq map[ssa.Value]bool, region map[*ssa.BasicB
 
 // nonNilRegion: blocks reachable from the edge on which the error is known non-nil,
 // pruning the nil-edges of later nil-tests on values that are definitely non-nil there.
-func nonNilRegion(ne edge, eq map[ssa.Value]bool) map[*ssa.BasicBlock]bool {
+func nonNilRegion(ne edge, eq map[ssa.Value]bool, initialCut ...edge) map[*ssa.BasicBlock]bool {
 	cut := map[edge]bool{}
+	for _, e := range initialCut {
+		cut[e] = true
+	}
 	for {
 		region := blockReach(ne.to, cut, nil)
 		changed := false
@@ -317,7 +320,17 @@ func swallowCheck(fn *ssa.Function, e ssa.Value) (nEdges int, problems []string,
 		if !hasErrRes && !hasBoolRes {
 			continue
 		}
-		region := nonNilRegion(ne, eq)
+		// edges on which the error equals a sentinel are conversions: judged on their own (errConversions: only the
+		// end-of-input sentinels in ReadFrom may become success), not as swallowing
+		var convEdges []edge
+		for _, b := range fn.Blocks {
+			for _, in := range b.Instrs {
+				if ev, _, eqEdges, ok := sentinelTest(in); ok && eq[ev] {
+					convEdges = append(convEdges, eqEdges...)
+				}
+			}
+		}
+		region := nonNilRegion(ne, eq, convEdges...)
 		for _, r := range allReturns(fn) {
 			if !region[r.Block()] {
 				continue
